@@ -289,6 +289,11 @@ func verifHarness_C09_converge() {
 // verifHarness_C09_reclaim: claims made one after the other (so "newest" is unambiguous: the last
 // one), including an instance claiming again while its earlier registration is still present, with
 // announcements delivered in any order between and after the claims.
+type c9Claim struct {
+	in *c9Inst
+	at time.Time
+}
+
 func verifHarness_C09_reclaim() {
 	verifConfig("preempt", 0)
 	nInst := verifParam("instances", 2)
@@ -305,6 +310,7 @@ func verifHarness_C09_reclaim() {
 	key := ClusterShardIDtoShortString(shard)
 	last := ""
 	seen := map[string]bool{}
+	var claims []c9Claim
 	deliverSome := func(all bool) {
 		for {
 			var pending []*c9Packet
@@ -339,12 +345,23 @@ func verifHarness_C09_reclaim() {
 		}
 		seen[in.name] = true
 		last = in.name
-		in.sm.RegisterShard(shard)
+		claims = append(claims, c9Claim{in, in.sm.RegisterShard(shard)})
 		verifQuiesce()
 		deliverSome(false)
 	}
 	deliverSome(true)
 	verifQuiesce()
+	// the stream behind an earlier claim may end only now: its teardown unregisters with the instant of
+	// *its* registration, which must not touch a newer claim (on this or on any other instance)
+	if len(claims) > 1 && verifChoose("late-teardown-of-an-earlier-claim", 2) == 1 {
+		old := claims[verifChoose("which-earlier-claim", len(claims)-1)]
+		verifAction("late-teardown")
+		verifReach("late-teardown-of-an-earlier-claim")
+		old.in.sm.UnregisterShard(shard, old.at)
+		verifQuiesce()
+		deliverSome(true)
+		verifQuiesce()
+	}
 	verifReach("all-announcements-delivered")
 	var owners []string
 	for _, in := range w.insts {
